@@ -297,3 +297,28 @@ def run_benign(prop, mod, res):
                    nontrivial=True)
     res.notes['benign_variants'] = out
     return out
+
+
+def run_benign_stored(prop, mod, res):
+    """The independently written behaviour-preserving refactorings of this property's code (benign/<prop>-b*/patch.diff) are
+    replayed in memory; the rules must report nothing new on them.  Recorded; a non-silent one is a checker defect (note)."""
+    import glob
+    clean_rf = {(f.rule, f.func) for f in res.findings}
+    out = []
+    for d in sorted(glob.glob(os.path.join(VERIF, 'benign', f'{prop}-*'))):
+        name = os.path.basename(d)
+        srcs = _patched_sources(os.path.join(d, 'patch.diff'))
+        if srcs is None:
+            out.append({'refactoring': name, 'status': 'patch no longer applies; skipped'})
+            continue
+        try:
+            res2 = mod.run(load_repo(overrides=srcs), 'quick')
+            new = sorted({(f.rule, f.func) for f in res2.findings} - clean_rf)
+            status = 'silent' if not new else 'FALSE ALARM: ' + '; '.join(f'{r} {fn}' for r, fn in new[:3])
+        except AnalysisError as exc:
+            new = [1]
+            status = f'ANALYSIS-ERROR {str(exc)[:120]}'
+        out.append({'refactoring': name, 'status': status})
+        res.oblige('BENIGN', f'silent on the independent refactoring {name}', not new, nontrivial=True)
+    res.notes['benign_refactorings_replayed'] = out
+    return out
